@@ -1373,6 +1373,268 @@ theorem unnamed_match_iff_scan (ct : ClassTables) (ts : List Tok) (hts : dstarOn
 
 example : dstarOnlyLast [.lit ['p'], .star, .dstar] = true ∧ '\n' ∉ ['p', '/', 'x'] := by decide
 
+/-! ## The template language, declaratively (on the `/`-separated segments of the value) -/
+
+/-- split on `/`: first segment and the remaining ones -/
+def splitSlashAux : List Char → List Char × List (List Char)
+  | [] => ([], [])
+  | c :: cs =>
+    if c = '/' then ([], (splitSlashAux cs).1 :: (splitSlashAux cs).2)
+    else (c :: (splitSlashAux cs).1, (splitSlashAux cs).2)
+
+/-- `str.split("/")` -/
+def splitSlash (v : List Char) : List (List Char) := (splitSlashAux v).1 :: (splitSlashAux v).2
+
+/-- the template language, declaratively, on the `/`-separated segments of the value: a literal
+matches the equal segment, `*` one non-empty segment, a final `**` zero or more segments -/
+def matchSegs : List Tok → List (List Char) → Bool
+  | [], [] => true
+  | [.dstar], _ => true
+  | .lit cs :: ts, s :: ss => s = cs && matchSegs ts ss
+  | .star :: ts, s :: ss => s ≠ [] && matchSegs ts ss
+  | _, _ => false
+
+def litsOk : List Tok → Bool
+  | [] => true
+  | .lit cs :: ts => !cs.contains '/' && litsOk ts
+  | _ :: ts => litsOk ts
+
+section AuxLang
+
+def okRes : Option (List Char × List Char) → Bool
+  | some (_, []) => true
+  | _ => false
+
+theorem okRes_andThen (a : Option (List Char × List Char)) (f : List Char → Option (List Char × List Char)) :
+    okRes (andThen a f) = match a with | none => false | some (_, r) => okRes (f r) := by
+  cases a with
+  | none => rfl
+  | some cr =>
+    obtain ⟨c, r⟩ := cr
+    simp only [andThen]
+    cases f r with
+    | none => rfl
+    | some cr2 => obtain ⟨c2, r2⟩ := cr2; cases r2 <;> rfl
+
+theorem splitSlash_of_span (v : List Char) :
+    ((spanSeg v).2 = [] → splitSlash v = [(spanSeg v).1]) ∧
+    (∀ w, (spanSeg v).2 = '/' :: w → splitSlash v = (spanSeg v).1 :: splitSlash w) := by
+  induction v with
+  | nil => simp [spanSeg, splitSlash, splitSlashAux]
+  | cons d r ih =>
+    by_cases hd : d = '/'
+    · subst hd
+      simp [spanSeg, splitSlash, splitSlashAux]
+    · simp only [spanSeg, hd, if_false, splitSlash, splitSlashAux]
+      constructor
+      · intro h; have := ih.1 h; simp only [splitSlash] at this; simp_all
+      · intro w h; have := ih.2 w h; simp only [splitSlash] at this; simp_all
+
+theorem spanSeg_snd_cases (v : List Char) : (spanSeg v).2 = [] ∨ ∃ w, (spanSeg v).2 = '/' :: w := by
+  induction v with
+  | nil => simp [spanSeg]
+  | cons d r ih =>
+    by_cases hd : d = '/'
+    · subst hd; simp [spanSeg]
+    · simpa [spanSeg, hd] using ih
+
+theorem spanSeg_append_noslash (cs w : List Char) (h : '/' ∉ cs) :
+    spanSeg (cs ++ w) = (cs ++ (spanSeg w).1, (spanSeg w).2) := by
+  induction cs with
+  | nil => simp
+  | cons c cs ih =>
+    have hc : c ≠ '/' := by intro e; apply h; simp [e]
+    have hcs : '/' ∉ cs := by intro e; apply h; simp [e]
+    simp [spanSeg, hc, ih hcs]
+
+theorem spanSeg_fst_nil_iff (w : List Char) : (spanSeg w).1 = [] ↔ (w = [] ∨ ∃ w', w = '/' :: w') := by
+  cases w with
+  | nil => simp [spanSeg]
+  | cons d r =>
+    by_cases hd : d = '/'
+    · subst hd; simp [spanSeg]
+    · simp [spanSeg, hd]
+
+theorem splitSlashAux_fst (v : List Char) : (splitSlashAux v).1 = (spanSeg v).1 := by
+  induction v with
+  | nil => rfl
+  | cons d r ih =>
+    by_cases hd : d = '/'
+    · subst hd; simp [spanSeg, splitSlashAux]
+    · simp [spanSeg, splitSlashAux, hd, ih]
+
+theorem matchSegs_nil_cons (s : List Char) (ss : List (List Char)) : matchSegs [] (s :: ss) = false := rfl
+
+structure TailSpec (ts : List Tok) : Prop where
+  nil : okRes (scanTail ts []) = matchSegs ts []
+  slash : ts ≠ [] → ∀ w, okRes (scanTail ts ('/' :: w)) = matchSegs ts (splitSlash w)
+  other : ∀ c w, c ≠ '/' → okRes (scanTail ts (c :: w)) = false
+
+/-- after a token has consumed the first segment `x` of `w` (rest `y`), the tail decides -/
+theorem tail_after (ts : List Tok) (hP : TailSpec ts) (w : List Char) :
+    okRes (scanTail ts (spanSeg w).2) = matchSegs ts (splitSlashAux w).2 := by
+  rcases spanSeg_snd_cases w with h | ⟨w', h⟩
+  · have := (splitSlash_of_span w).1 h
+    simp only [splitSlash, List.cons.injEq] at this
+    rw [h, this.2]; exact hP.nil
+  · have := (splitSlash_of_span w).2 w' h
+    simp only [splitSlash, List.cons.injEq] at this
+    rw [h, this.2]
+    by_cases hts : ts = []
+    · subst hts; simp [scanTail, okRes, matchSegs_nil_cons]
+    · exact hP.slash hts w'
+
+theorem step_star (ts : List Tok) (hP : TailSpec ts) (w : List Char) :
+    okRes (andThen (scanTok .star w) (scanTail ts)) = matchSegs (.star :: ts) (splitSlash w) := by
+  rw [okRes_andThen]
+  simp only [scanTok, splitSlash, splitSlashAux_fst]
+  by_cases hx : (spanSeg w).1 = []
+  · simp [hx, matchSegs]
+  · simp only [hx, if_false]
+    have := tail_after ts hP w
+    cases ts with
+    | nil => simpa [matchSegs, hx] using this
+    | cons t ts' => cases t <;> simpa [matchSegs, hx] using this
+
+theorem step_lit (ts : List Tok) (hP : TailSpec ts) (cs : List Char) (hcs : '/' ∉ cs) (w : List Char) :
+    okRes (andThen (scanTok (.lit cs) w) (scanTail ts)) = matchSegs (.lit cs :: ts) (splitSlash w) := by
+  rw [okRes_andThen]
+  simp only [scanTok, splitSlash, splitSlashAux_fst]
+  by_cases hp : cs <+: w
+  · obtain ⟨w', rfl⟩ := hp
+    simp only [List.prefix_append, if_true, List.drop_left']
+    have hsp := spanSeg_append_noslash cs w' hcs
+    cases w' with
+    | nil =>
+      have h2 : (spanSeg (cs ++ [])).2 = [] := by rw [hsp]; simp [spanSeg]
+      have h1 : (spanSeg (cs ++ [])).1 = cs := by rw [hsp]; simp [spanSeg]
+      have := (splitSlash_of_span (cs ++ [])).1 h2
+      simp only [splitSlash, List.cons.injEq] at this
+      rw [h1, this.2]
+      have hn := hP.nil
+      cases ts with
+      | nil => simpa [matchSegs] using hn
+      | cons t ts' => cases t <;> simpa [matchSegs] using hn
+    | cons c w'' =>
+      by_cases hc : c = '/'
+      · subst hc
+        have h2 : (spanSeg (cs ++ '/' :: w'')).2 = '/' :: w'' := by rw [hsp]; simp [spanSeg]
+        have h1 : (spanSeg (cs ++ '/' :: w'')).1 = cs := by rw [hsp]; simp [spanSeg]
+        have := (splitSlash_of_span (cs ++ '/' :: w'')).2 w'' h2
+        simp only [splitSlash, List.cons.injEq] at this
+        rw [h1, this.2]
+        by_cases hts : ts = []
+        · subst hts; simp [scanTail, okRes, matchSegs]
+        · have hs := hP.slash hts w''
+          cases ts with
+          | nil => exact absurd rfl hts
+          | cons t ts' => cases t <;> simpa [matchSegs, splitSlash] using hs
+      · have h1 : (spanSeg (cs ++ c :: w'')).1 ≠ cs := by
+          rw [hsp]; simp [spanSeg, hc]
+        rw [hP.other c w'' hc]
+        cases ts with
+        | nil => simp [matchSegs, h1]
+        | cons t ts' => cases t <;> simp [matchSegs, h1]
+  · simp only [hp, if_false]
+    have h1 : (spanSeg w).1 ≠ cs := by
+      intro e; apply hp
+      have := spanSeg_split w
+      rw [e] at this
+      exact ⟨_, this⟩
+    cases ts with
+    | nil => simp [matchSegs, h1]
+    | cons t ts' => cases t <;> simp [matchSegs, h1]
+
+theorem okRes_andThen_pre (c0 w : List Char) (g f : List Char → Option (List Char × List Char)) :
+    okRes (andThen (andThen (some (c0, w)) g) f) = okRes (andThen (g w) f) := by
+  simp only [andThen]
+  cases g w with
+  | none => rfl
+  | some cr =>
+    obtain ⟨c, r⟩ := cr
+    simp only
+    cases f r with
+    | none => rfl
+    | some cr2 => obtain ⟨c2, r2⟩ := cr2; cases r2 <;> rfl
+
+theorem tailSpec : ∀ (ts : List Tok), dstarOnlyLast ts = true → litsOk ts = true → TailSpec ts := by
+  intro ts
+  induction ts with
+  | nil => intro _ _; exact ⟨rfl, fun h => absurd rfl h, fun c w _ => rfl⟩
+  | cons t ts ih =>
+    intro hd hl
+    cases t with
+    | dstar =>
+      cases ts with
+      | cons t' ts' => simp [dstarOnlyLast] at hd
+      | nil =>
+        refine ⟨rfl, fun _ w => ?_, fun c w hc => ?_⟩
+        · simp [scanTail, andThen, okRes, matchSegs]
+        · simp [scanTail, hc, okRes]
+    | lit cs =>
+      have hd' : dstarOnlyLast ts = true := by simpa [dstarOnlyLast] using hd
+      simp only [litsOk, Bool.and_eq_true, Bool.not_eq_true'] at hl
+      have hcs : '/' ∉ cs := by
+        intro h; have := List.contains_iff_mem.mpr h; rw [hl.1] at this; cases this
+      have hP := ih hd' hl.2
+      refine ⟨?_, fun _ w => ?_, fun c w hc => ?_⟩
+      · simp [scanTail, scanSlash, andThen, okRes, matchSegs]
+      · simp only [scanTail, scanSlash, if_true]
+        rw [okRes_andThen_pre]
+        exact step_lit ts hP cs hcs w
+      · simp [scanTail, scanSlash, hc, andThen, okRes]
+    | star =>
+      have hd' : dstarOnlyLast ts = true := by simpa [dstarOnlyLast] using hd
+      have hl' : litsOk ts = true := by simpa [litsOk] using hl
+      have hP := ih hd' hl'
+      refine ⟨?_, fun _ w => ?_, fun c w hc => ?_⟩
+      · simp [scanTail, scanSlash, andThen, okRes, matchSegs]
+      · simp only [scanTail, scanSlash, if_true]
+        rw [okRes_andThen_pre]
+        exact step_star ts hP w
+      · simp [scanTail, scanSlash, hc, andThen, okRes]
+
+end AuxLang
+
+/-- the one-pass scanner accepts exactly the declarative template language -/
+theorem scanToks_iff_matchSegs (ts : List Tok) (hne : ts ≠ []) (hd : dstarOnlyLast ts = true)
+    (hl : litsOk ts = true) (w : List Char) :
+    okRes (scanToks ts w) = matchSegs ts (splitSlash w) := by
+  cases ts with
+  | nil => exact absurd rfl hne
+  | cons t ts =>
+    cases t with
+    | dstar =>
+      cases ts with
+      | cons t' ts' => simp [dstarOnlyLast] at hd
+      | nil => simp [scanToks, scanTok, scanTail, andThen, okRes, matchSegs]
+    | lit cs =>
+      have hd' : dstarOnlyLast ts = true := by simpa [dstarOnlyLast] using hd
+      simp only [litsOk, Bool.and_eq_true, Bool.not_eq_true'] at hl
+      have hcs : '/' ∉ cs := by
+        intro h; have := List.contains_iff_mem.mpr h; rw [hl.1] at this; cases this
+      exact step_lit ts (tailSpec ts hd' hl.2) cs hcs w
+    | star =>
+      have hd' : dstarOnlyLast ts = true := by simpa [dstarOnlyLast] using hd
+      have hl' : litsOk ts = true := by simpa [litsOk] using hl
+      exact step_star ts (tailSpec ts hd' hl') w
+
+/-- **The regex of a template (here: without named group) recognises exactly the declarative
+template language** on the `/`-separated segments of the value. -/
+theorem unnamed_regex_language (ct : ClassTables) (ts : List Tok) (hne : ts ≠ [])
+    (hd : dstarOnlyLast ts = true) (hl : litsOk ts = true) (v : List Char) (hnl : '\n' ∉ v) :
+    matchesUnnamed ct ts v = matchSegs ts (splitSlash v) := by
+  rw [unnamed_match_iff_scan ct ts hd v hnl, ← scanToks_iff_matchSegs ts hne hd hl v]
+  cases scanToks ts v with
+  | none => rfl
+  | some cr => obtain ⟨c, r⟩ := cr; cases r <;> rfl
+
+/-- hypotheses of `scanToks_iff_matchSegs` / `unnamed_regex_language` on `p/*/**` -/
+example : ([.lit ['p'], .star, .dstar] : List Tok) ≠ [] ∧ dstarOnlyLast [.lit ['p'], .star, .dstar] = true ∧
+    litsOk [.lit ['p'], .star, .dstar] = true := by decide
+example : matchSegs [.lit ['p'], .star, .dstar] (splitSlash ['p', '/', 'x']) = true := by decide
+example : matchSegs [.lit ['p'], .dstar] (splitSlash ['p', 'X']) = false := by decide
+
 /-- a client-streaming method with explicit routing sends no routing header at all … -/
 theorem client_streaming_explicit_sends_nothing (ct : ClassTables) (ps : List Param) (verbs : List (List Char))
     (r : Request) : header ct ⟨some ps, verbs, true⟩ r = none := rfl
